@@ -1,2 +1,3 @@
 """importing this package registers every rule"""
 from . import wire_rules  # noqa: F401
+from . import io_rules  # noqa: F401
